@@ -1579,7 +1579,14 @@ def install(I):
     I.repo.externals["sys"] = IN.StubModule("sys", {})
     I.repo.externals["numbers"] = IN.StubModule("numbers", {"Number": NativeClass("numbers.Number")})
     I.repo.externals["typing"] = IN.StubModule("typing", {"Iterable": NativeClass("Iterable"), "Dict": dict, "List": list, "Callable": NativeClass("Callable")})
-    I.repo.externals["inspect"] = IN.StubModule("inspect", {"getfullargspec": B("getfullargspec", getfullargspec)})
+    def _isfunction(I2, o):
+        from .spec import UserFn, RowFn
+
+        return isinstance(o, (UserFn, RowFn, SFunc))
+
+    I.repo.externals["inspect"] = IN.StubModule("inspect", {"getfullargspec": B("getfullargspec", getfullargspec), "isfunction": B("isfunction", _isfunction), "signature": B("signature", lambda I2, f: (_ for _ in ()).throw(Unsupported("inspect.signature")))})
+    # weak dictionaries behave like dictionaries as long as their keys are alive (they are, during one scenario)
+    I.repo.externals["weakref"] = IN.StubModule("weakref", {"WeakKeyDictionary": dict, "WeakValueDictionary": dict})
     I.repo.externals["copy"] = IN.StubModule("copy", {"deepcopy": B("deepcopy", deepcopy), "copy": B("copy", shallow_copy)})
     from . import tlib
 
